@@ -718,6 +718,38 @@ func checkProofBody(p *Prog, r *Report, kp func(string, string) string, m *didMo
 			})
 		}
 		r.Check(okPK, kp("GUARD", tag+"#pubkey-decoded"), "the key used is the successfully decoded PublicKeyBase58 of the looked-up method", site, "decode error == nil dominates", "pubkey term: "+pk.String())
+		// (d2) the decoder accepts exactly the bytes of one key: its success lies behind an exact-length test of the decoded bytes
+		// (`<` for `!=` lets longer material through; copy() then silently keeps its prefix, and the holder of the prefix key controls)
+		if cv, isCall := c.Val.(*ssa.Call); okPK && isCall && cv.Call.StaticCallee() != nil && InModule(cv.Call.StaticCallee()) {
+			g := cv.Call.StaticCallee()
+			gO := NewOrigin(p, g)
+			gFa := NewFacts(p, g, gO)
+			pinned, nSucc := true, 0
+			for _, gret := range returnsOf(g) {
+				if !isNilConst(unspill(gret.Results[len(gret.Results)-1])) {
+					continue
+				}
+				nSucc++
+				F := gFa.At(gret.Block())
+				found := false
+				for _, a := range F.Atoms() {
+					t := a.Term
+					if t == nil || t.Op != "eq" || len(t.Args) != 2 {
+						continue
+					}
+					for _, side := range t.Args {
+						if side.IsCall("builtin:len") && len(side.Args) == 1 && side.Args[0].Contains(func(x *Term) bool { return x.Op == "call" && strings.Contains(x.Name, "Decode") }) && Entails(F, a) {
+							found = true
+						}
+					}
+				}
+				if !found {
+					pinned = false
+				}
+			}
+			r.Check(pinned && nSucc > 0, kp("GUARD", tag+"#pubkey-length-exact"), "the key decoder accepts only material of exactly one key's length", p.FnPos(g),
+				"success ⇒ len(decoded) == key size", FuncName(g)+" can succeed without an exact-length test of the decoded bytes: longer material is truncated to its first bytes and the holder of that prefix key passes the proof")
+		}
 		// (e) C04-D2: returns verify's sequence unchanged
 		rt := o.Of(ret.Results[0])
 		cc, kk := rt.Res()
